@@ -16,34 +16,45 @@ def parse(path):
 
 
 def cover(edges, max_len=40):
-    out = collections.defaultdict(list)          # node -> [(input, key, target)]
+    """greedy transition cover: walk from the initial state, always taking an uncovered out-edge of the current state if
+    there is one (most are self loops), otherwise moving along a shortest route to the nearest state that has one."""
+    out = collections.defaultdict(dict)           # node -> {input key: (input, target)}
     for u, i, v in edges:
         k = json.dumps(i, sort_keys=True)
-        if not any(x[1] == k for x in out[u]):
-            out[u].append((i, k, v))
-    targets = set(v for _, _, v in edges)
-    inits = [u for u in out if u not in targets]
-    # the initial state may have self loops only from later states; take the source of the first edge otherwise
-    init = inits[0] if inits else edges[0][0]
-    # TLC's first EDGE lines come from the initial state
-    init = edges[0][0]
-    uncovered = set((u, k) for u in out for (_, k, _) in out[u])
-    total = len(uncovered)
+        out[u].setdefault(k, (i, v))
+    init = edges[0][0]                            # TLC's first EDGE lines leave the initial state
+    unc = {u: list(d.values()) for u, d in out.items()}     # uncovered out-edges per node
+    total = sum(len(x) for x in unc.values())
+    succ = {}                                     # node -> {successor: input}, distinct successors only
+    for u, d in out.items():
+        m = {}
+        for (i, v) in d.values():
+            if v != u and v not in m:
+                m[v] = i
+        succ[u] = m
+    left = total
     paths = []
-    while uncovered:
+    while left > 0:
         cur, path = init, []
         progressed = False
         while len(path) < max_len:
-            # nearest node (BFS) with an uncovered out-edge
+            if unc.get(cur):
+                i, v = unc[cur].pop()
+                left -= 1
+                path.append(i)
+                cur = v
+                progressed = True
+                continue
+            # nearest node with an uncovered out-edge
             prev = {cur: None}
             q = collections.deque([cur])
             found = None
             while q:
                 n = q.popleft()
-                if any((n, k) in uncovered for (_, k, _) in out[n]):
+                if unc.get(n):
                     found = n
                     break
-                for (i, k, v) in out[n]:
+                for v, i in succ.get(n, {}).items():
                     if v not in prev:
                         prev[v] = (n, i)
                         q.append(v)
@@ -52,21 +63,14 @@ def cover(edges, max_len=40):
             route = []
             n = found
             while prev[n] is not None:
-                p, i = prev[n]
+                pn, i = prev[n]
                 route.append(i)
-                n = p
+                n = pn
             route.reverse()
-            if len(path) + len(route) + 1 > max_len and path:
+            if path and len(path) + len(route) + 1 > max_len:
                 break
             path += route
             cur = found
-            for (i, k, v) in out[cur]:
-                if (cur, k) in uncovered:
-                    uncovered.discard((cur, k))
-                    path.append(i)
-                    cur = v
-                    progressed = True
-                    break
         if not progressed:
             break
         paths.append(path)
